@@ -257,6 +257,18 @@ def lean_child(timeout=300):
     return Child([MODEL_BIN], timeout=timeout, line_timeout=120)
 
 
+def fingerprint_mismatches():
+    """names of the by-name-modelled ParserData methods whose body differs from the committed expectation"""
+    import re
+    try:
+        txt = open(os.path.join(LEAN, "DS/Gen/Fingerprints.lean"), encoding="utf-8").read()
+        exp = json.load(open(os.path.join(VERIF, "lib/fingerprints_expected.json"), encoding="utf-8"))
+    except OSError as e:
+        return ["unreadable:" + str(e)]
+    rows = dict(re.findall(r'\("(\w+)", "((?:[^"\\]|\\.)*)"\)', txt))
+    return sorted(k for k in set(rows) | set(exp) if rows.get(k) != exp.get(k))
+
+
 def hx(s):
     b = s.encode("utf-8") if isinstance(s, str) else bytes(s)
     return b.hex() if b else "-"
